@@ -424,6 +424,7 @@ OBLIGATIONS = [
     Ob("c13a_rule_gate", {}, 300),
 ] + [Ob("c13b_item_gate", {"WHICH": w}, 900) for w in range(4)] + [Ob("c13c_expr", {"ELO": lo, "EHI": lo + 6}, 900) for lo in range(0, len(EXPRS), 6)] + [
     Ob("c13d_fields", {"LEN": 3}, 600),
+    Ob("c13d_fields", {"LEN": 8}, 3000, tier="thorough"),
     Ob("c13d_values", {}, 300),
     Ob("c13d_rule_conds", {}, 600),
     Ob("c13e_applied", {}, 300),
